@@ -102,5 +102,7 @@ def explore(ctx):
             for when in ("inflight", "afterwrite"):
                 for how in ("cancel", "deadline"):
                     lines.append("e2ec y%d when=%s how=%s" % (k, when, how)); k += 1
+            for how in ("cancel", "deadline"):
+                lines.append("e2en z%d how=%s" % (k, how)); k += 1
     triples, tie = C.run_both(ctx, "TestVerifScn", lines, go_timeout=1500)
     return dict(verdicts=triples, tie=tie, stats=dict(scenarios=len(lines)), exhaustive=not ctx.get("replay"))
